@@ -274,6 +274,24 @@ def hooks(rep, u):
         why = "no test of pvt->state (set to %s by tp_create before the start hook) guards the stop hook" % sv if not gd else "guarded by pvt->state"
     (rep.proved if ok else rep.violated)("R-PAIR", fs, "pvt-stop-hook-only-if-started",
                                          "the virtual thread's stop hook runs only if its start hook ran (tp_create may fail before it)", why)
+    # ... and if it ran, the stop hook will run: once the start hook may have been called, the 'started' state is already
+    # stored on every path that can still fail (the store dominates the hook, or no path from the hook to tp_destroy avoids it)
+    st = hook_calls(fc, "tpt_on_start")
+    stores = [pos for pos, root, x, ps in fc.nodes() if x.get("k") == "bin" and x["op"] == "=" and key(x["x"]).endswith("pvt->state")]
+    destroys = [pos for pos, root, c, ps in fc.calls({"tp_destroy", "tp_shutdown"})]
+    ok2 = len(st) == 1 and bool(stores) and bool(destroys)
+    why2 = "hook sites %d, state stores %d, failing exits %d" % (len(st), len(stores), len(destroys))
+    if ok2:
+        if any(fc.pos_dominates(sp_, st[0]) for sp_ in stores):
+            why2 = "the state store dominates the start hook"
+        else:
+            r = fc.reach_from(fc.blocks[st[0][0]].rsucc(), avoid=[p_[0] for p_ in stores])
+            leak = [d for d in destroys if d[0] in r]
+            ok2 = not leak
+            why2 = ("the failing exit at line %s is reachable after the start hook without the state store: tp_shutdown will skip the stop hook" %
+                    fc.blocks[leak[0][0]].elems[leak[0][1]].get("ln")) if leak else "every path from the hook to a failing exit passes the state store"
+    (rep.proved if ok2 else rep.violated)("R-PAIR", fc, "pvt-started-before-failing-exits",
+                                          "once the virtual thread's start hook has run, every later failure of tp_create finds the state that makes tp_shutdown run the stop hook", why2)
     # latch
     def latch_atom(x, ps):
         def is_atomic_call(y):
